@@ -568,6 +568,21 @@ def rebind_everywhere(orig, new):
 # arming
 
 
+def _public_calls_only(raw, contracted):
+    """A call that passes private arguments (keywords starting with '_': the library's own internal call forms, free to mean and
+    to return anything) goes to the real callable unjudged; the contracts speak about the public call forms only."""
+    import functools  # noqa: PLC0415
+
+    @functools.wraps(raw)
+    def call(*a, **k):
+        if any(isinstance(x, str) and x.startswith("_") for x in k):
+            COUNTS["private_call_form_not_judged"] += 1
+            return raw(*a, **k)
+        return contracted(*a, **k)
+
+    return call
+
+
 def _budgeted(fn, size_of, specs):
     """Run the real function under a LINE-event budget that is a generous function of the input size."""
     bud = Budget.get()
@@ -600,14 +615,14 @@ def arm(*groups):
             f = icontract.ensure(flatten_original_unchanged, error=ContractBroken)(f)
             f = icontract.ensure(flatten_leaves_and_product, error=ContractBroken)(f)
             f = icontract.snapshot(_snap_flatten, name="before")(f)
-            Y.DecayChain.flatten = f
+            Y.DecayChain.flatten = _public_calls_only(Y.DecayChain.flatten, f)
         elif g == "chain_to_dict":
             f = _budgeted(Y.DecayChain.to_dict, _chain_size_unfolded, ["decaylanguage.decay.decay:DecayChain.to_dict"])
-            Y.DecayChain.to_dict = icontract.ensure(chain_to_dict_roundtrip, error=ContractBroken)(f)
+            Y.DecayChain.to_dict = _public_calls_only(Y.DecayChain.to_dict, icontract.ensure(chain_to_dict_roundtrip, error=ContractBroken)(f))
         elif g == "mode_to_dict":
-            Y.DecayMode.to_dict = icontract.ensure(mode_to_dict_roundtrip, error=ContractBroken)(Y.DecayMode.to_dict)
+            Y.DecayMode.to_dict = _public_calls_only(Y.DecayMode.to_dict, icontract.ensure(mode_to_dict_roundtrip, error=ContractBroken)(Y.DecayMode.to_dict))
         elif g == "to_string":
-            Y.DecayChain.to_string = icontract.ensure(descriptor_reads_back, error=ContractBroken)(Y.DecayChain.to_string)
+            Y.DecayChain.to_string = _public_calls_only(Y.DecayChain.to_string, icontract.ensure(descriptor_reads_back, error=ContractBroken)(Y.DecayChain.to_string))
         elif g == "conj":
             import decaylanguage.dec.dec  # noqa: F401, PLC0415
             import decaylanguage.utils.particleutils as PU  # noqa: PLC0415
@@ -620,9 +635,10 @@ def arm(*groups):
                 if hasattr(orig, attr):
                     setattr(f, attr, getattr(orig, attr))
             COUNTS["C04.rebound_sites"] = rebind_everywhere(orig, f)
-            Y.DaughtersDict.charge_conjugate = icontract.ensure(daughters_conjugated, error=ContractBroken)(Y.DaughtersDict.charge_conjugate)
+            Y.DaughtersDict.charge_conjugate = _public_calls_only(Y.DaughtersDict.charge_conjugate,
+                                                                  icontract.ensure(daughters_conjugated, error=ContractBroken)(Y.DaughtersDict.charge_conjugate))
             g2 = icontract.ensure(mode_conj_keeps_bf_and_metadata, error=ContractBroken)(Y.DecayMode.charge_conjugate)
-            Y.DecayMode.charge_conjugate = icontract.snapshot(_snap_mode, name="before")(g2)
+            Y.DecayMode.charge_conjugate = _public_calls_only(Y.DecayMode.charge_conjugate, icontract.snapshot(_snap_mode, name="before")(g2))
         elif g == "parse":
             import decaylanguage.dec.dec as D  # noqa: PLC0415
             import functools  # noqa: PLC0415
@@ -630,12 +646,12 @@ def arm(*groups):
             real_load = D.DecFileParser.load_additional_decay_models
 
             @functools.wraps(real_load)
-            def load_additional_decay_models(self, *models):
+            def load_additional_decay_models(self, *models, **kw):
                 _USER_MODELS.setdefault(id(self), []).extend(models)
-                return real_load(self, *models)
+                return real_load(self, *models, **kw)
 
             D.DecFileParser.load_additional_decay_models = load_additional_decay_models
-            D.DecFileParser.parse = icontract.ensure(parse_matches_reference, error=ContractBroken)(D.DecFileParser.parse)
+            D.DecFileParser.parse = _public_calls_only(D.DecFileParser.parse, icontract.ensure(parse_matches_reference, error=ContractBroken)(D.DecFileParser.parse))
         elif g == "parser_chains":
             import decaylanguage.dec.dec as D  # noqa: PLC0415
 
@@ -678,12 +694,12 @@ def arm(*groups):
                 return 100_000
 
             real_expand = _budgeted(D.DecFileParser.expand_decay_modes, _expand_size, ["decaylanguage.decay.decay:_expand_decay_modes"])
-            D.DecFileParser.expand_decay_modes = icontract.ensure(expansion_is_paths, error=ContractBroken)(real_expand)
+            D.DecFileParser.expand_decay_modes = _public_calls_only(D.DecFileParser.expand_decay_modes, icontract.ensure(expansion_is_paths, error=ContractBroken)(real_expand))
         elif g == "list_structure":
             import decaylanguage.modeling.decay as MD  # noqa: PLC0415
 
             f = _budgeted(MD.ModelDecay.list_structure, lambda self, final_states: 40 + 5 ** min(len(final_states), 5), ["decaylanguage.modeling.decay:ModelDecay.list_structure"])
-            MD.ModelDecay.list_structure = icontract.ensure(structure_equals_bruteforce, error=ContractBroken)(f)
+            MD.ModelDecay.list_structure = _public_calls_only(MD.ModelDecay.list_structure, icontract.ensure(structure_equals_bruteforce, error=ContractBroken)(f))
         elif g == "descriptor_format":
             import decaylanguage.utils.utilities as UU  # noqa: PLC0415
 
